@@ -262,6 +262,10 @@ def run(ctx):
             fn_stream(ctx, 3, so, to, [rng.randrange(256) for _ in range(rng.randint(1, 3))],
                       extra=rng.choice([0, 0, 1]), reordering=rng.random() < 0.4)
     for _ in range(3 if q else 30):
+        # (one root only: the runner then calls `dd._copy.copy_bdd` itself)
+        fn_stream(ctx, 3, rng.choice(o3), rng.choice(o3), [rng.randrange(256)], extra=rng.choice([0, 1]),
+                  reordering=rng.random() < 0.4)
+    for _ in range(3 if q else 30):
         fn_stream(ctx, 4, rng.choice(o4), rng.choice(o4), [rng.getrandbits(16) for _ in range(2)],
                   extra=rng.choice([0, 1]), reordering=rng.random() < 0.4)
     # larger copies into a target that reorders several times WHILE it is being copied into
